@@ -72,6 +72,15 @@ def gen():
             # statement removal
             if re.match(r'^\s*(self\.\w+(\.\w+)? (=|\+=|-=) .*;|\w+ (\+=|-=) .*;)\s*$', code):
                 muts.append({'file': rel, 'line': no, 'op': 'delete', 'old': l, 'new': re.match(r'^\s*', l).group(0) + '// removed'})
+            # condition negation, boolean literals, deletion of a call statement on self (round 2 operators)
+            mneg = re.match(r'^(\s*(?:\} else )?if )(?!let )(.+)( \{\s*)$', code)
+            if mneg:
+                muts.append({'file': rel, 'line': no, 'op': 'negate', 'old': l, 'new': mneg.group(1) + '!(' + mneg.group(2) + ')' + mneg.group(3) + l[len(code):]})
+            for a, b in [('true', 'false'), ('false', 'true')]:
+                for m in re.finditer(r'\b%s\b' % a, code):
+                    muts.append({'file': rel, 'line': no, 'op': '%s->%s' % (a, b), 'old': l, 'new': code[:m.start()] + b + code[m.end():] + l[len(code):]})
+            if re.match(r'^\s*self\.[\w.]+\(.*\)(\.unwrap\(\))?;\s*$', code):
+                muts.append({'file': rel, 'line': no, 'op': 'delete-call', 'old': l, 'new': re.match(r'^\s*', l).group(0) + '// removed'})
             # constant swaps
             for a, b in [('FRAG_ID_LEN', 'TOTAL_LENGTH_LEN'), ('PROTOCOL_LEN', 'FRAG_ID_LEN'), ('GSE_LEN_MAX', 'TOTAL_LEN_MAX'), ('CRC_LEN', 'PROTOCOL_LEN'),
                          ('label_len', 'pdu_len'), ('pkt_len', 'buffer_len'), ('gse_len', 'pkt_len')]:
@@ -80,8 +89,12 @@ def gen():
                         continue
                     new = code[:m.start()] + b + code[m.end():] + l[len(code):]
                     muts.append({'file': rel, 'line': no, 'op': '%s->%s' % (a, b), 'old': l, 'new': new})
-    # dedupe
-    seen = set(); out = []
+    # dedupe; ids of an earlier run are kept (new operators are appended)
+    prev = []
+    pp = os.path.join(WORK, 'mutants.json')
+    if os.path.exists(pp):
+        prev = json.load(open(pp))
+    seen = set((m['file'], m['line'], m['new']) for m in prev); out = list(prev)
     for m in muts:
         k = (m['file'], m['line'], m['new'])
         if k in seen or m['new'] == m['old']:
